@@ -268,8 +268,10 @@ def run(ctx):
         mains = [m for m in mains if not conflicting(variant, m)]
         cases = []
         for main in mains:
+            # (a file that only restates defaults is converted to a file of comments only: always run)
+            restates = any(main.values()) and all(b is None or default_body(variant, n) == b for n, b in main.items())
             for tool in ('convert', 'upgrade'):
-                if q and rng.random() > 0.5:
+                if q and rng.random() > 0.5 and not restates:
                     continue
                 cases.append(run_tool(tool, variant, main, {n: None for n in NAMES}, rng))
             # generator / redundancy: main file + directory override, each name in at most one file,
